@@ -297,7 +297,8 @@ class InterpBase:
       return z3.If(v.t, z3.IntVal(1), z3.IntVal(0))
     if isinstance(v, VNoneT):
       if self.spec_mode:
-        raise Unsupported('None used as int in a specification')
+        # undefined term inside a specification (meant to be guarded): an unconstrained value
+        return z3.Int(self.path.fresh_name('undef'))
       self.raise_('TypeError', VStr('None used as int'))
     raise Unsupported(f'to_int({type(v).__name__})')
 
